@@ -68,6 +68,11 @@ def make_summands(kind, n):
         return [FLOATS[i % len(FLOATS)] for i in range(n)]
     if kind == "ndarray":
         return [np.array([FLOATS[i % 8], FLOATS[(i + 3) % 8], float(i)]) for i in range(n)]
+    if kind == "ndarray-mixed":
+        # summands of different dtypes: the result (value AND dtype) must be that of the single-process tree
+        dts = [np.float64, np.float32, np.int64, np.float64, np.float32, np.int64, np.float32, np.float64]
+        vals = [0.1, 1.0 / 3.0, 7, 1e8, 2.0 / 3.0, -3, 1e-3, 5.5]
+        return [np.array([vals[i % 8], vals[(i + 3) % 8]]).astype(dts[i % 8]) for i in range(n)]
     dom = ift.RGSpace(2)
     if kind == "field":
         return [ift.makeField(dom, np.array([FLOATS[i % 8], FLOATS[(i + 3) % 8]])) for i in range(n)]
@@ -95,12 +100,12 @@ def canon(v):
 
 def cases(tier, seed):
     if tier == "quick":
-        specs = [("sym", 6, 3), ("float", 6, 3), ("ndarray", 4, 3), ("field", 4, 3), ("multifield", 3, 2),
-                 ("sym", 8, 4)]
+        specs = [("sym", 6, 3), ("float", 6, 3), ("ndarray", 4, 3), ("ndarray-mixed", 4, 3), ("field", 4, 3),
+                 ("multifield", 3, 2), ("sym", 8, 4)]
         sym4 = True
     else:
-        specs = [("sym", 8, 4), ("float", 8, 4), ("ndarray", 6, 4), ("field", 6, 3), ("multifield", 4, 3),
-                 ("sym", 12, 5)]
+        specs = [("sym", 8, 4), ("float", 8, 4), ("ndarray", 6, 4), ("ndarray-mixed", 6, 4), ("field", 6, 3),
+                 ("multifield", 4, 3), ("sym", 12, 5)]
     out = []
     for kind, nmax, kmax in specs:
         for k in range(1, kmax + 1):
